@@ -439,6 +439,11 @@ def rule_partial(rep: Report, rid="C01.partial") -> None:
                     ok, why = True, "builder stack holds the root node pushed by reset() below every open rule (start/end_rule pair per C02)"
                 if not ok and base[0] == "call" and base[1] == "enumerate":
                     ok, why = True, "enumerate pair"
+                if not ok and base[0] == "call" and base[1] == "next" and len(base[2]) == 2 and base[2][0][0] == "call" \
+                        and base[2][0][1] in ("enumerate", "zip") and base[2][1][0] == "tuple":
+                    width = 2 if base[2][0][1] == "enumerate" else len(base[2][0][2])
+                    if 0 <= t[2][1] < min(width, len(base[2][1][1])):
+                        ok, why = True, "next pair of an enumerate/zip iterator, or the default tuple of the same width"
                 cb = br.canon(base)
                 if not ok and cb[0] == "items" and cb[2] == "DocStringSeparator" and justified[("first", "DocString", "DocStringSeparator")]():
                     ok, why = True, "grammar: DocString has at least one #DocStringSeparator"
